@@ -6,8 +6,8 @@ from fractions import Fraction
 
 from ..keval import KEval, Ref, Cond, Const, Top
 from ..poly import Poly, ZERO, ONE
-from ..forms import value_poly, real_guards, short, canon_store, ref_store
-from .. import wire
+from ..forms import value_poly, real_guards, short, canon_store, ref_store, src_poly
+from .. import wire, paths
 from ..model import canon_src, norm_text, AnchorMissing
 from ..controls import Control
 from ..mutate import in_func
@@ -35,14 +35,15 @@ def update_shape(ctx, rule, p, K, key, want, init_shape=None, what="", out=None,
         ctx.ob(rule, key, None, message=f"expected one returned array, got {outs}")
         return None
     sts = S.stores_to(outs[0])
-    got = sorted(map(canon_store, sts), key=repr)
-    w = sorted(want, key=repr)
+    from ..forms import net_updates
+    got = sorted(net_updates(list(map(canon_store, sts))), key=repr)
+    w = sorted(net_updates(list(want)), key=repr)
     ok = got == w
     miss = [x for x in w if x not in got]
     extra = [x for x in got if x not in w]
     node = sts[0].node if sts else f.node
     for s in sts:
-        if canon_store(s) in extra:
+        if any(canon_store(s)[0] == x[0] and canon_store(s)[3] == x[3] for x in extra):
             node = s.node
             break
     ctx.ob(rule, key, ok, where=f, node=node, construct=("unexpected update " + str(extra[0])[:260]) if extra else ("missing update " + str(miss[0])[:260] if miss else f"{len(got)} updates"),
@@ -162,7 +163,8 @@ def scheme_rule(ctx, p):
         got = wire.kwr(m, cs[0], callee) if len(cs) == 1 else {}   # name-free: local temporaries inlined
         rets = wire.returns_of(m)
         n += 1
-        ctx.ob(rule, m.key, got == want and len(rets) == 1 and wire.is_value_of(m, rets[0].value, cs[0]), where=m, node=cs[0] if cs else m.node, construct=str(got),
+        same = set(got) == set(want) and all(got[k] == want[k] or src_poly(got[k]) == src_poly(want[k]) for k in want)   # canonical forms: int(a / 4) and a // 4 coincide
+        ctx.ob(rule, m.key, same and len(rets) == 1 and wire.is_value_of(m, rets[0].value, cs[0]), where=m, node=cs[0] if cs else m.node, construct=str(got),
                message=f"expected {util}({want}) returned untouched (the weights being the ones the scheme itself reports for this linear object)")
         if "splitted_mappings" in want:
             rs = p.func(f"{RU}:reg_split_from")
@@ -194,27 +196,28 @@ def block_rule(ctx, p):
     lo = p.cls("autoarray.inversion.linear_obj.linear_obj:LinearObj").methods.get("regularization_matrix")
     if lo is None:
         raise AnchorMissing("LinearObj.regularization_matrix")
-    rets = wire.returns_of(lo)
-    zero = [r for r in rets if norm_text(r.value) == "np.zeros((self.params, self.params))"]
-    own = [r for r in rets if norm_text(r.value) == "self.regularization.regularization_matrix_from(linear_obj=self)"]
-    ok = len(zero) == 1 and len(own) == 1 and len(rets) == 2
-    if ok:
-        br = wire.enclosing_branches(lo, zero[0])
-        ok = len(br) == 1 and br[0][1] and norm_text(br[0][0].test) == "self.regularization is None"
-    ctx.ob(rule, lo.key, ok, where=lo, node=lo.node, construct=str([norm_text(r.value) for r in rets]), message="an object without regularization contributes an all-zero params x params block; otherwise its own scheme's matrix for itself")
+    # name-free path summaries: what is returned under which condition
+    PS = paths.path_summaries(lo) or []
+    rets = paths.returns(PS)
+    zero = [q for q in rets if q.text in ("np.zeros((self.params,self.params))", "np.zeros([self.params,self.params])")]
+    own = [q for q in rets if q.text == "self.regularization.regularization_matrix_from(linear_obj=self)"]
+    ok = len(zero) == 1 and len(own) == 1 and len(rets) == 2 and zero[0].holds("self.regularization is None") is True and own[0].holds("self.regularization is None") is False \
+        and len(zero[0].conds) == 1 and len(own[0].conds) == 1
+    ctx.ob(rule, lo.key, ok, where=lo, node=lo.node, construct=str([q.text[:80] for q in rets]), message="an object without regularization contributes an all-zero params x params block; otherwise its own scheme's matrix for itself")
     inv = p.cls("autoarray.inversion.inversion.abstract:AbstractInversion").methods.get("regularization_matrix")
     if inv is None:
         raise AnchorMissing("AbstractInversion.regularization_matrix")
-    rets = wire.returns_of(inv)
-    bd = [r for r in rets if isinstance(r.value, ast.Call) and norm_text(r.value.func) == "block_diag"]
-    ok = len(bd) == 1 and len(bd[0].value.args) == 1 and isinstance(bd[0].value.args[0], ast.Starred) and isinstance(bd[0].value.args[0].value, ast.ListComp)
+    PS = paths.path_summaries(inv) or []
+    rets = [q for q in paths.returns(PS)]
+    bd = [q for q in rets if isinstance(q.value, ast.Call) and norm_text(q.value.func) == "block_diag"]
+    ok = len(bd) == 1 and len(bd[0].value.args) == 1 and not bd[0].value.keywords and isinstance(bd[0].value.args[0], ast.Starred) and isinstance(bd[0].value.args[0].value, ast.ListComp)
     if ok:
         lc = bd[0].value.args[0].value
         ok = len(lc.generators) == 1 and norm_text(lc.generators[0].iter) == "self.linear_obj_list" and not lc.generators[0].ifs and norm_text(lc.elt) == f"{norm_text(lc.generators[0].target)}.regularization_matrix"
-    ctx.ob(rule, inv.key, ok, where=inv, node=bd[0] if bd else inv.node, construct=norm_text(bd[0].value)[:160] if bd else str([norm_text(r.value)[:60] for r in rets]),
+    ctx.ob(rule, inv.key, ok, where=inv, node=bd[0].node if bd else inv.node, construct=bd[0].text[:160] if bd else str([q.text[:60] for q in rets]),
            message="blocks must be assembled by block_diag over self.linear_obj_list in order, one block per object, with no filtering or reordering")
-    pre = [r for r in rets if norm_text(r.value) == "self.preloads.regularization_matrix"]
-    ctx.ob(rule, inv.key + ":returns", len(rets) == len(bd) + len(pre), where=inv, node=inv.node, construct=str([norm_text(r.value)[:60] for r in rets]), message="the only alternative result is the preloaded matrix")
+    pre = [q for q in rets if q.text == "self.preloads.regularization_matrix"]
+    ctx.ob(rule, inv.key + ":returns", len(rets) == len(bd) + len(pre), where=inv, node=inv.node, construct=str([q.text[:60] for q in rets]), message="the only alternative result is the preloaded matrix")
     # block_diag is scipy's
     imp = inv.module.imports.get("block_diag")
     ctx.ob(rule, inv.key + ":import", imp == "scipy.linalg.block_diag", where=inv, node=inv.node, construct=str(imp), message="block_diag must be scipy.linalg.block_diag")
